@@ -83,6 +83,17 @@ Proof.
   - inversion H; subst. apply andb_true_iff. split; [destruct y; reflexivity | apply IH; reflexivity].
 Qed.
 
+Lemma list_eqb_verdict : forall a b,
+  list_eqb same_verdict a b = true <-> map accepted a = map accepted b.
+Proof.
+  induction a as [|x a IH]; destruct b as [|y b]; cbn; split; intro H; try congruence; try discriminate.
+  - apply andb_true_iff in H. destruct H as [H1 H2]. apply IH in H2. unfold same_verdict in H1.
+    apply Bool.eqb_prop in H1. congruence.
+  - inversion H as [[H1 H2]]. apply andb_true_iff. split.
+    + unfold same_verdict. rewrite H1. apply Bool.eqb_reflx.
+    + apply IH. exact H2.
+Qed.
+
 (* ------------------------------------------- candidates, best route, Allow set *)
 
 Lemma candidates_in : forall T m segs t,
@@ -368,13 +379,13 @@ Definition req_judged (T : table) (nf na : bool) (q : req) : Prop :=
 Lemma L_r_prop_ok_iff : forall c,
   r_prop_ok c = true <->
   (one_var_name_per_position (table_of (cregs c)) = true ->
-   cregobs c = reg_results [] (cregs c) /\
+   map accepted (cregobs c) = map accepted (reg_results [] (cregs c)) /\
    Forall (req_judged (table_of (cregs c)) (cnf c) (cna c)) (creqs c)).
 Proof.
   intro c. unfold r_prop_ok, in_scope.
   destruct (one_var_name_per_position (table_of (cregs c))).
   2: { split; [intros _ H; discriminate | reflexivity]. }
-  rewrite andb_true_iff, list_eqb_reg_eq, forallb_forall, Forall_forall.
+  rewrite andb_true_iff, list_eqb_verdict, forallb_forall, Forall_forall.
   assert (J : forall q, response_ok (table_of (cregs c)) (cnf c) (cna c) q = true <->
                         req_judged (table_of (cregs c)) (cnf c) (cna c) q).
   { intro q. unfold req_judged. destruct (clean_path (qp q)) as [segs|] eqn:CP.
@@ -399,14 +410,13 @@ Lemma L_server_model_passes : forall s q r,
   start_of (wstarts (run opt_real (scfgs s) (stables s) (sevents s))) (sqs q) = Some (Started r) ->
   let c := nth (sqs q) (scfgs s) default_cfg in
   In (sqres q) (sserve_allowed (sc_cors c) r (sqm q) (sqp q)) ->
-  mws_ok c q = true ->
   sreq_ok s q = true.
 Proof.
-  intros s q r ST c I MW. unfold sreq_ok. destruct (negb (server_in_scope s (sqs q))); [reflexivity|].
+  intros s q r ST c I. unfold sreq_ok. destruct (negb (server_in_scope s (sqs q))); [reflexivity|].
   fold c. unfold user_regs.
   destruct (L_server_dispatch _ _ _ _ _ ST) as [E [A [_ _]]]. fold c in E.
   set (regs := spec_regs (stables s) (before_start (sqs q) (sevents s)) (sqs q)) in *.
-  rewrite (first_error_none _ A). rewrite MW, andb_true_r.
+  rewrite (first_error_none _ A).
   unfold sresponse_ok, sserve_allowed in *. destruct (sc_cors c) eqn:CORS.
   - cbn [andb] in I. destruct (sqm q =? "OPTIONS").
     + destruct I as [I|[]]. rewrite <- I. reflexivity.
@@ -431,12 +441,11 @@ Lemma L_server_judgement_means : forall s q segs resp,
   sc_cors c = false -> sqres q = SResp resp -> clean_path (sqp q) = Some segs ->
   sreq_ok s q = true ->
   all_ok (reg_results [] (user_regs s (sqs q))) /\
-  obs_ok (table_of (user_regs s (sqs q))) (sc_nf c) (sc_na c) (sqm q) segs resp /\
-  mws_ok c q = true.
+  obs_ok (table_of (user_regs s (sqs q))) (sc_nf c) (sc_na c) (sqm q) segs resp.
 Proof.
   intros s q segs resp SC c NC ER CP H. unfold sreq_ok in H. rewrite SC in H. cbn [negb] in H. fold c in H.
   destruct (first_error (reg_results [] (user_regs s (sqs q)))) eqn:FE; [discriminate|].
-  apply andb_true_iff in H. destruct H as [H MW]. split; [|split; [|exact MW]].
+  split.
   - unfold first_error in FE. unfold all_ok. apply Forall_forall. intros e I.
     pose proof (find_none _ _ FE e I) as N. cbn beta in N. apply negb_false_iff in N.
     destruct e; try discriminate. reflexivity.
